@@ -54,6 +54,13 @@ Definition roz (r : result (option Z)) (b : option Z) : bool :=
   match r with Ok x => option_eqb Z.eqb x b | Err _ => false end.
 Definition roa (r : result (option (Z * Z))) (b : option (Z * Z)) : bool :=
   match r with Ok x => option_eqb (fun u v => ((fst u =? fst v) && (snd u =? snd v))%Z) x b | Err _ => false end.
+Definition outcome_eqb (r : result ecdh_outcome) (o : ecdh_outcome) : bool :=
+  match r, o with
+  | Ok (Secret a), Secret b => (a =? b)%Z
+  | Ok NoKeyError, NoKeyError | Ok InvalidCurveError, InvalidCurveError
+  | Ok InvalidSharedSecretError, InvalidSharedSecretError => true
+  | _, _ => false
+  end.
 Definition iserr {A} (r : result A) : bool := match r with Err _ => true | Ok _ => false end.
 Definition rl (r : result (list Z)) (b : list Z) : bool := res_eqb (list_eqb Z.eqb) r (Ok b).
 Definition ceq (c : curve) (name : list N) (p a b gx gy n h : Z) : bool :=
@@ -584,6 +591,40 @@ def _correspondence_cases(ctx):
             ctx.dist["model:impl-exception"] += 1
             add("(iserr %s)" % model if model else "false", m + ("implementation raised " + res[1],))
         ctx.case(("model", op, i))
+    # (4b) the guards of ECDH._get_shared_secret: every combination of ECDH curve / private-key curve /
+    # public-key curve (or none) over four shipped curves, attributes set directly
+    gc = [curves.SECP112r1, curves.SECP112r2, curves.NIST256p, curves.SECP256k1]
+    gkeys = {}
+    for c in gc:
+        d = r.choice([2, 3, 5, 6])
+        gkeys[c.name] = (d, keys.SigningKey.from_secret_exponent(d, c),
+                         keys.SigningKey.from_secret_exponent(r.randrange(2, 2 ** 40), c).get_verifying_key())
+    combos = [(x, y, z) for x in [None] + gc for y in [None] + gc for z in [None] + gc]
+    if ctx.quick():
+        combos = [t for t in combos if t[0] is t[1] is t[2] or r.random() < 0.45]
+    for (cx, cy, cz) in combos:
+        e = ecdh.ECDH()
+        e.curve = cx
+        e.private_key = gkeys[cy.name][1] if cy else None
+        e.public_key = gkeys[cz.name][2] if cz else None
+
+        def f():
+            try:
+                return e.generate_sharedsecret()
+            except (ecdh.NoKeyError, ecdh.InvalidCurveError, ecdh.InvalidSharedSecretError) as ex:
+                return type(ex).__name__
+        res = run(f)
+        qpriv = "None" if cy is None else "(Some (%s, %s))" % (cy.name, qZ(gkeys[cy.name][0]))
+        qpub = "None" if cz is None else "(Some (%s, %s))" % (cz.name, qj(coords(gkeys[cz.name][2].pubkey.point)))
+        model = "(ecdh_get_shared %s %s %s)" % ("None" if cx is None else "(Some %s)" % cx.name, qpriv, qpub)
+        m = ("ecdh-guard", cx and cx.name, cy and cy.name, cz and cz.name)
+        if res[0] == "ok":
+            v = res[1]
+            add("(outcome_eqb %s %s)" % (model, v if isinstance(v, str) else "(Secret %s)" % qZ(int(v))), m)
+        else:
+            add("(iserr %s)" % model, m + ("implementation raised " + res[1],))
+        ctx.case(m)
+        ctx.dist["model:ecdh-guard"] += 1
     # (5) hand models on shipped curves: a few multiplications (slow inside Coq: one per shard)
     cs = shipped()
     by_bits = sorted(cs, key=lambda c: int(c.curve.p()).bit_length())
@@ -979,6 +1020,227 @@ def small_ecdh_search(ctx, cvp):
     ctx.nontrivial.add(("ecdh-small", p, a, b))
 
 
+
+# ---------------------------------------------------------------------------
+# ECDH operation sequences: an independent reference of the documented behaviour of the ECDH
+# object (state = curve, private key (curve, d), received public key (curve, point)) is run
+# next to the implementation; after every sequence a shared secret is requested.
+
+SAME_SIZE_PAIRS = [("NIST256p", "BRAINPOOLP256r1"), ("NIST256p", "SECP256k1"), ("SECP256k1", "BRAINPOOLP256r1"),
+                   ("SECP112r1", "SECP112r2"), ("NIST192p", "BRAINPOOLP192r1"), ("NIST224p", "BRAINPOOLP224r1"),
+                   ("NIST384p", "BRAINPOOLP384r1"), ("SECP160r1", "BRAINPOOLP160r1"), ("NIST256p", "NIST384p")]
+SEQ_SYMS = ["setA", "setB", "privA", "privB", "gen", "pubA", "pubB"]
+FORMS = ["obj", "bytes", "der", "pem"]
+
+
+class SeqKeys(object):
+    """per curve: a signing key with a known secret, and its encodings"""
+
+    def __init__(self, c, d):
+        keys = lib()[3]
+        self.c, self.d = c, d
+        self.p, self.a, self.b, self.n = int(c.curve.p()), int(c.curve.a()), int(c.curve.b()), int(c.order)
+        self.G = (int(c.generator.x()), int(c.generator.y()))
+        self.sk = keys.SigningKey.from_secret_exponent(d, c)
+        self.vk = self.sk.get_verifying_key()
+        self.Q = a_mul(d, self.G, self.p, self.a)
+        self.sk_bytes, self.sk_der, self.sk_pem = self.sk.to_string(), self.sk.to_der(), self.sk.to_pem()
+        self.vk_bytes, self.vk_der, self.vk_pem = self.vk.to_string(), self.vk.to_der(), self.vk.to_pem()
+
+
+def ref_step(st, sym, form, K):
+    """reference semantics of one operation.  st = dict(curve, priv, pub) with curve a name or
+    None, priv = (curve name, d) or None, pub = (curve name, (x, y)) or None.
+    Returns the expected outcome: 'ok' | exception class name | 'reject' (some exception)."""
+    if sym in ("setA", "setB"):
+        st["curve"] = K[sym[-1]].c.name
+        return "ok"
+    if sym == "gen":
+        if st["curve"] is None:
+            return "NoCurveError"
+        st["priv"] = (st["curve"], None)          # secret read back from the object
+        return "ok"
+    k = K[sym[-1]]
+    if sym.startswith("priv"):
+        if form == "bytes":
+            if st["curve"] is None:
+                return "NoCurveError"
+            tgt = K["A"] if K["A"].c.name == st["curve"] else K["B"]
+            if len(k.sk_bytes) != len(tgt.sk_bytes) or not (1 <= k.d < tgt.n):
+                return "reject"
+            st["priv"] = (st["curve"], k.d)
+            return "ok"
+        if st["curve"] is None:
+            st["curve"] = k.c.name
+        if st["curve"] != k.c.name:
+            return "InvalidCurveError"
+        st["priv"] = (k.c.name, k.d)
+        return "ok"
+    # received public key
+    if form == "bytes":
+        if st["curve"] is None:
+            return "reject"
+        tgt = K["A"] if K["A"].c.name == st["curve"] else K["B"]
+        x, y = k.Q
+        if len(k.vk_bytes) != len(tgt.vk_bytes) or not (x < tgt.p and y < tgt.p) or \
+                (y * y - (x * x * x + tgt.a * x + tgt.b)) % tgt.p != 0:
+            return "reject"
+        st["pub"] = (st["curve"], k.Q)
+        return "ok"
+    if st["curve"] is None:
+        st["curve"] = k.c.name
+    if st["curve"] != k.c.name:
+        return "InvalidCurveError"
+    st["pub"] = (k.c.name, k.Q)
+    return "ok"
+
+
+def ref_secret(st, K):
+    if st["priv"] is None or st["pub"] is None:
+        return "NoKeyError"
+    if not (st["priv"][0] == st["curve"] == st["pub"][0]):
+        return "InvalidCurveError"
+    k = K["A"] if K["A"].c.name == st["curve"] else K["B"]
+    S = a_mul(st["priv"][1], st["pub"][1], k.p, k.a)
+    if S is None:
+        return "InvalidSharedSecretError"
+    return S[0].to_bytes((k.p.bit_length() + 7) // 8, "big")
+
+
+def impl_step(e, sym, form, K):
+    if sym in ("setA", "setB"):
+        e.set_curve(K[sym[-1]].c)
+    elif sym == "gen":
+        e.generate_private_key()
+    elif sym.startswith("priv"):
+        k = K[sym[-1]]
+        {"obj": lambda: e.load_private_key(k.sk), "bytes": lambda: e.load_private_key_bytes(k.sk_bytes),
+         "der": lambda: e.load_private_key_der(k.sk_der), "pem": lambda: e.load_private_key_pem(k.sk_pem)}[form]()
+    else:
+        k = K[sym[-1]]
+        {"obj": lambda: e.load_received_public_key(k.vk), "bytes": lambda: e.load_received_public_key_bytes(k.vk_bytes),
+         "der": lambda: e.load_received_public_key_der(k.vk_der), "pem": lambda: e.load_received_public_key_pem(k.vk_pem)}[form]()
+
+
+def outcome_matches(want, got):
+    """got = 'ok' or the exception class name"""
+    if want == "reject":
+        return got != "ok"
+    return want == got
+
+
+def run_ecdh_sequence(ctx, K, ctor, seq, data):
+    """ctor in (None, 'A', 'B'); seq = [(symbol, form)].  Returns False when a failure was recorded."""
+    ecdh = lib()[4]
+    st = {"curve": None if ctor is None else K[ctor].c.name, "priv": None, "pub": None}
+    kick()
+    e = ecdh.ECDH(curve=None if ctor is None else K[ctor].c)
+    trace = []
+    for (sym, form) in seq:
+        want = ref_step(st, sym, form, K)
+        try:
+            kick()
+            impl_step(e, sym, form, K)
+            got = "ok"
+        except Exception as ex:          # noqa
+            got = type(ex).__name__
+        trace.append("%s/%s:%s" % (sym, form, got))
+        if sym == "gen" and got == "ok" and st["priv"] is not None and st["priv"][1] is None:
+            st["priv"] = (st["priv"][0], int(e.private_key.privkey.secret_multiplier))
+        if not outcome_matches(want, got):
+            _fail(ctx, "ecdh-sequence-step", dict(data, step=len(trace) - 1),
+                  "step %s: expected %s, implementation: %s (trace %s)" % (sym, want, got, " ".join(trace)))
+            return False
+    want = ref_secret(st, K)
+    try:
+        kick()
+        got = e.generate_sharedsecret_bytes()
+    except Exception as ex:              # noqa
+        got = type(ex).__name__
+    ctx.evaluations += 1
+    if got != want:
+        consistent = st["priv"] is not None and st["pub"] is not None and st["priv"][0] == st["curve"] == st["pub"][0]
+        _fail(ctx, "ecdh-sequence-secret", dict(data, step=len(seq)),
+              "state curve=%s private=%s public=%s (one curve: %s): expected %s, implementation: %s (trace %s)" % (
+                  st["curve"], st["priv"] and st["priv"][0], st["pub"] and st["pub"][0], consistent,
+                  want.hex() if isinstance(want, bytes) else want, got.hex() if isinstance(got, bytes) else got,
+                  " ".join(trace)))
+        return False
+    return True
+
+
+def seq_keys(ctx, pair):
+    curves = lib()[1]
+    A, B = getattr(curves, pair[0]), getattr(curves, pair[1])
+    lim = min(int(A.order), int(B.order))
+    return {"A": SeqKeys(A, ctx.rng.randrange(2, lim)), "B": SeqKeys(B, ctx.rng.randrange(2, lim))}
+
+
+def ecdh_sequence_search(ctx, full):
+    import itertools
+    r = ctx.rng
+    pairs = SAME_SIZE_PAIRS if full else SAME_SIZE_PAIRS[:1] + [r.choice(SAME_SIZE_PAIRS[1:3]), SAME_SIZE_PAIRS[3]]
+    for pi, pair in enumerate(pairs):
+        K = seq_keys(ctx, pair)
+        da, db = K["A"].d, K["B"].d
+        # every sequence up to length 3 (4 on the first pair when full) with key objects, every constructor curve
+        maxlen = 4 if (full and pi == 0) else 3
+        if not full and pi > 0:
+            maxlen = 2
+        for ctor in (None, "A", "B"):
+            for ln in range(0, maxlen + 1):
+                for syms in itertools.product(SEQ_SYMS, repeat=ln):
+                    seq = [(s, "obj") for s in syms]
+                    data = {"op": "ecdh-seq", "pair": list(pair), "dA": da, "dB": db, "ctor": ctor,
+                            "seq": [list(x) for x in seq]}
+                    run_ecdh_sequence(ctx, K, ctor, seq, data)
+        ctx.nontrivial.add(("ecdh-seq-enum", pair, maxlen))
+        # random longer sequences with random encodings (bytes / DER / PEM)
+        for _ in range(ctx.budget(60, 400) if not ctx.brokens else 400):
+            ctor = r.choice([None, "A", "B"])
+            seq = [(r.choice(SEQ_SYMS), r.choice(FORMS)) for _ in range(r.randrange(2, 7))]
+            data = {"op": "ecdh-seq", "pair": list(pair), "dA": da, "dB": db, "ctor": ctor, "seq": [list(x) for x in seq]}
+            run_ecdh_sequence(ctx, K, ctor, seq, data)
+            ctx.case(("ecdh-seq", pair, ctor, tuple(seq)))
+        ctx.dist["ecdh-seq-pair"] += 1
+    # constructor with keys: ECDH(curve, private_key, public_key)
+    ecdh = lib()[4]
+    for pair in pairs:
+        K = seq_keys(ctx, pair)
+        for cc in (None, "A", "B"):
+            for pk in (None, "A", "B"):
+                for qk in (None, "A", "B"):
+                    names = [x and K[x].c.name for x in (cc, pk, qk)]
+                    eff = names[0] or names[1] or names[2]
+                    bad = any(x is not None and x != eff for x in names[1:])
+                    try:
+                        kick()
+                        e = ecdh.ECDH(cc and K[cc].c, pk and K[pk].sk, qk and K[qk].vk)
+                        got = "ok"
+                        try:
+                            sec = e.generate_sharedsecret_bytes()
+                        except Exception as ex:      # noqa
+                            sec = type(ex).__name__
+                    except Exception as ex:          # noqa
+                        got, sec = type(ex).__name__, None
+                    if bad:
+                        want, wsec = "InvalidCurveError", None
+                    else:
+                        want = "ok"
+                        if pk is None or qk is None:
+                            wsec = "NoKeyError"
+                        else:
+                            k = K[pk]
+                            wsec = a_mul(k.d, K[qk].Q, k.p, k.a)[0].to_bytes((k.p.bit_length() + 7) // 8, "big")
+                    ctx.evaluations += 1
+                    if (got, sec) != (want, wsec):
+                        _fail(ctx, "ecdh-sequence-secret", {"op": "ecdh-ctor", "pair": list(pair), "dA": K["A"].d, "dB": K["B"].d,
+                                                            "curve": cc, "priv": pk, "pub": qk},
+                              "ECDH(curve=%s, private=%s, public=%s): expected %s/%s, implementation %s/%s" % (
+                                  names[0], names[1], names[2], want, wsec.hex() if isinstance(wsec, bytes) else wsec,
+                                  got, sec.hex() if isinstance(sec, bytes) else sec))
+
+
 def find_openssl():
     for cand in ("/root/miniconda/bin/openssl", shutil.which("openssl")):
         if cand and os.path.exists(cand):
@@ -1061,6 +1323,7 @@ def search(ctx):
         for cvp in (SMALL if full else SMALL[:4]):
             small_ecdh_search(ctx, cvp)
         shipped_search(ctx)
+        ecdh_sequence_search(ctx, full)
         if not ctx.quick():
             openssl_diff(ctx)
     except Stop:
@@ -1072,10 +1335,14 @@ def search(ctx):
         "correspondence: the 7 generated formula functions, naf, contains_point evaluated in Coq vs the real methods on "
         "curve points of small (p<=37) and shipped curves in relations random/equal/inverse/infinity, Z in {1, small, random}, "
         "with reduced, unreduced, negative and arbitrary integer coordinates; generated curve parameters vs live objects; hand "
-        "models (mul NAF/table, mul_add, scale, x, y, eq, double, add, validation, key derivation, ECDH) vs implementation, exact "
-        "Jacobian coordinates. search: complete groups of small prime-order curves (every pair x 3 scalings incl. 3 encodings of "
+        "models (mul NAF/table, mul_add, scale, x, y, eq, double, add, validation, key derivation, ECDH and the guards of "
+        "_get_shared_secret) vs implementation, judged by the point / value returned. search: complete groups of small prime-order curves (every pair x 3 scalings incl. 3 encodings of "
         "INFINITY, scalars 0..3n with/without order and generator table, mul_add grids, ECDH for all key pairs, validation of every "
-        "(x,y) in [0,p+2]^2) and edge/random scalars, additions, ECDH, invalid points on all 17 shipped curves, against an "
+        "(x,y) in [0,p+2]^2), edge/random scalars, additions, ECDH, invalid points on all 17 shipped curves, and ECDH operation "
+        "SEQUENCES (constructor curve, set_curve, load_private_key[_bytes/_der/_pem], generate_private_key, "
+        "load_received_public_key[_bytes/_der/_pem] in every order up to length 3-4 plus random longer ones over pairs of "
+        "different curves of equal size, then generate_sharedsecret_bytes: a secret only when all three are on one curve, "
+        "else the documented NoKeyError/NoCurveError/InvalidCurveError) against an "
         "independent affine implementation; distinct = by operation and inputs, trivial = scalar 0 / k = 0")
 
 
@@ -1201,6 +1468,27 @@ def replay(ctx, data):
                 S = a_mul(d["d1"] * d["d2"], G0, p, a)
                 print("  party1:", s1.hex(), " party2:", s2.hex(), " independent x:", None if S is None else S[0])
                 rc |= not (S is not None and s1 == s2 == S[0].to_bytes((p.bit_length() + 7) // 8, "big"))
+            elif op == "ecdh-seq":
+                class _C(object):
+                    evaluations = 0
+                    fails = []
+
+                    def fail(self, kind, data, detail=""):
+                        self.fails.append(detail)
+                cc = _C()
+                curves_mod = lib()[1]
+                K = {"A": SeqKeys(getattr(curves_mod, d["pair"][0]), d["dA"]), "B": SeqKeys(getattr(curves_mod, d["pair"][1]), d["dB"])}
+                signal.signal(signal.SIGVTALRM, _on_alarm)
+                try:
+                    ok = run_ecdh_sequence(cc, K, d["ctor"], [tuple(x) for x in d["seq"]], {})
+                except Stop:
+                    ok = False
+                finally:
+                    signal.setitimer(signal.ITIMER_VIRTUAL, 0)
+                print("  ECDH(curve=%s); %s; generate_sharedsecret_bytes()" % (d["ctor"] and d["pair"]["AB".index(d["ctor"])],
+                                                                             "; ".join("%s[%s]" % tuple(x) for x in d["seq"])))
+                print("  " + ("agrees with the reference" if ok else cc.fails[0]))
+                rc |= not ok
             elif op == "order":
                 got = to_aff(c.generator * n, p)
                 print("  n*G:", got, " (must be None = INFINITY)")
